@@ -249,6 +249,20 @@ fn get_method(
                     if let Some(repeat) = override_values.repeat {
                         reffed_object.repeat = Some(repeat);
                     }
+
+                    // The struct of the reffed block (and everything inside it) is generated where the block
+                    // itself is declared. The ref only adds an accessor to it, so don't collect the block again
+                    return Ok(lir::BlockMethod {
+                        cfg_attr: cfg_attr_string_to_tokens(cfg_attr)?,
+                        doc_attr: quote! { #[doc = #description] },
+                        name: format_ident!("{}", name.to_case(convert_case::Case::Snake)),
+                        address: Literal::i64_unsuffixed(reffed_object.address_offset),
+                        allow_address_overlap: false,
+                        kind: repeat_to_method_kind(&reffed_object.repeat),
+                        method_type: lir::BlockMethodType::Block {
+                            name: format_ident!("{}", reffed_object.name),
+                        },
+                    });
                 }
                 mir::ObjectOverride::Register(override_values) => {
                     let reffed_object = reffed_object
